@@ -544,6 +544,18 @@ class RecipeReplay:
         partial_remove = any(st["call"] == "remove" and self.partial(st, snaps[i]) for i, st in enumerate(ev["prog"]))
         qkey = dict(key, stages=len(tfs) - 1)
         removed_from = {st["n"] for st in ev["prog"] if st["call"] == "remove"}
+        # what the remove steps of the program discarded, per substance (C17: "the amounts removed are what usage tracking
+        # reports as discarded" - a wrong get_substance_used answer for such a substance is also C17's)
+        discarded = {}
+        for i, st in enumerate(ev["prog"]):
+            if st["call"] == "remove":
+                for s_, x_ in model.contents(ev["trash"][i]).items():
+                    discarded[s_] = discarded.get(s_, 0) + x_
+
+        def also_c17(s, k9, text):
+            if discarded.get(s, 0) > 0:
+                self.ran("C17")
+                self.report("C17", "discarded_not_reported", dict(k9, query="get_substance_used"), text, ev)
         # ---- C09 get_substance_used ---------------------------------------------------------------------------
         for t, tf in enumerate(tfs):
             for j, dset in enumerate(self.dsets):
@@ -582,8 +594,10 @@ class RecipeReplay:
                         elif exc is not None:
                             if x > 0:
                                 self.report("C09", "query_raises", dict(k9, exc=type(exc).__name__), f"get_substance_used({s}, {tf!r}, {unit[0]!r}, {dlabel}) raised {type(exc).__name__}: {exc}; specified {e!r}", ev)
+                                also_c17(s, k9, f"get_substance_used({s}, {tf!r}, {unit[0]!r}, {dlabel}) raised {type(exc).__name__}: {exc}; specified {e!r} (remove steps discarded some {s})")
                         elif abs(got - e) > tol:
                             self.report("C09", "wrong_amount", k9, f"get_substance_used({s}, {tf!r}, {unit[0]!r}, {dlabel}) = {got!r}, specified {e!r}", ev)
+                            also_c17(s, k9, f"get_substance_used({s}, {tf!r}, {unit[0]!r}, {dlabel}) = {got!r}, specified {e!r} (remove steps discarded some {s})")
         # ---- C15 get_amount_remaining / get_container_flows ---------------------------------------------------------
         for t, tf in enumerate(tfs):
             for j, name in enumerate(ev["decl"]):
